@@ -45,7 +45,7 @@ unsafe impl std::alloc::GlobalAlloc for YieldAlloc {
 static GLOBAL: YieldAlloc = YieldAlloc;
 
 fn scenarios() -> Vec<&'static dyn Scenario> {
-    vec![&c20::C20Lib, &c20x::C20Fmt, &c20x::C20Cli, &c20x::C20Macro, &c11::C11Threads { xmod: false, fine: false }, &c11::C11Threads { xmod: true, fine: false }, &c11::C11Threads { xmod: false, fine: true }, &c08::C08Images, &c17::C17Corrupt, &c12::C12Deliveries, &c12::C12Subsets, &c12::C12XmodEnumeral, &c12::C12XmodName, &c10::C10Faults, &c10::C10XmodName]
+    vec![&c20::C20Lib, &c20x::C20Fmt { c10: false }, &c20x::C20Cli, &c20x::C20Macro, &c11::C11Threads { xmod: false, fine: false, fmt: false }, &c11::C11Threads { xmod: true, fine: false, fmt: false }, &c11::C11Threads { xmod: false, fine: true, fmt: false }, &c11::C11Threads { xmod: false, fine: false, fmt: true }, &c08::C08Images, &c17::C17Corrupt, &c12::C12Deliveries, &c12::C12Subsets, &c12::C12XmodEnumeral, &c12::C12XmodName, &c10::C10Faults, &c10::C10XmodName, &c20x::C20Fmt { c10: true }]
 }
 
 fn meta(prop: &str) -> (&'static str, Vec<&'static str>, serde_json::Value) {
